@@ -754,6 +754,9 @@ class RawNodeAt(SVal):
     def py_isinstance(self, cx, c):
         return c == "H5GroupLike"
 
+    def py_setitem(self, cx, idx, v):  # node[...] = v: a write INTO an existing dataset (not a replacement of the node)
+        cx.effect("raw-write-in-place", self.path_t, idx, v)
+
     def _count(self):
         n = N_CHILDREN(self.path_t)
         for d in self.raw.deleted:
@@ -895,6 +898,10 @@ class LinksUpdate(FnSpec):
     qual = "TOCLinks.update"
     props = ("C06",)
 
+    def init(self):
+        self.bindings["cast"] = lambda cx, t, v: v
+        self.bindings["H5DatasetLike"] = "H5DatasetLike"
+
     def setup(self, cx):
         o = links_obj(cx)
         a = A(self=o, uuid=UuidV(z3.Const("uuid", UU)), new_target=SStr(z3.String("new_target")))
@@ -909,7 +916,7 @@ class LinksUpdate(FnSpec):
         fx = cx.fx
         ok = [e[0] for e in fx] == ["raw-del", "raw-set"]
         return [
-            ("link-rewritten-in-place", z3.And(z3.BoolVal(ok), (fx[0][1] == P) if ok else False, (fx[1][1] == P) if ok else False, same_str(fx[1][2], a.new_target.t) if ok else False), "the existing link (same UUID, same place) now holds the new target"),
+            ("link-rewritten-in-place", z3.And(z3.BoolVal(ok), (fx[0][1] == P) if ok else False, (fx[1][1] == P) if ok else False, same_str(fx[1][2], a.new_target.t) if ok else False), "the existing link (same UUID, same place) now holds the new target — by deleting and re-creating the link node: a write INTO the node would be refused by the IH5 driver for a link committed in an older container, after the data was already moved"),
             ("link-table-unchanged", a.self.fields["_toc_path"].same(cx, a.tp0), "the UUID keeps resolving to the same link"),
         ]
 
